@@ -326,12 +326,14 @@ HeaderChecks(e) ==
     { Chk("C18",
         good /\
         CASE e.op = "hdr_get" ->
-               IF v \in NarrowViews THEN e.fields = L!GetAll(v, e.raw) ELSE e.wide = e.raw
+               (* a view is a window on the first ViewLen bytes of its backing buffer, whatever follows them *)
+               IF v \in NarrowViews THEN e.fields = L!GetAll(v, e.raw) ELSE e.wide = SubSeq(e.raw, 1, L!ViewLen[v])
           [] e.op = "hdr_set" ->
                IF v \in NarrowViews
                THEN LET after == L!Set(v, e.raw, e.field, e.value) IN
                     e.raw_after = after /\ e.fields = L!GetAll(v, after)
-               ELSE e.raw_after = e.value /\ e.wide = e.value
+               ELSE /\ e.raw_after = e.value \o SubSeq(e.raw, L!ViewLen[v] + 1, Len(e.raw))
+                    /\ e.wide = e.value
           [] e.op = "hdr_from_buf" ->
                LET valid == IF v = "transport" THEN L!TransportValid(e.raw, e.version)
                                                ELSE L!BodyHdrValid(e.raw)
